@@ -33,6 +33,9 @@ SEEDS = {
     "C18-2": ("C18", ["c18_transition_table"]),
     "C11-2": ("C11", None),
     "C03-2": ("C03", None),
+    "C08-3": ("C08", ["c08_math_facts", "c08_gf32bit_fits_identity", "c08_gf32bit_commut"]),
+    "C14-3": ("C14", ["c14_take_contract", "c14_fifo_against_reference", "c14_write_contract"]),
+    "C09-3": ("C09", None),
     "C06-2": ("C06", ["c06_prss_index128_injective", "c06_prss_index128_try_from", "c06_prss_offset_chunks_distinct"]),
     "C17-1": ("C17", None),
     "C01-1": ("C01", None),
@@ -59,6 +62,9 @@ def main():
             results[sid] = {"applied": False, "note": a.stdout[-400:]}
             continue
         t0 = time.time()
+        # the evidence file describes the *unchanged* tree: save it and put it back after the run on the changed tree
+        ev = os.path.join(VERIF, "evidence", prop + ".json")
+        ev_saved = open(ev).read() if os.path.exists(ev) else None
         try:
             cmd = [os.path.join(VERIF, "check"), prop, "--tier", "thorough"]
             if units:
@@ -66,6 +72,8 @@ def main():
             r = sh(cmd, cwd=VERIF)
         finally:
             sh(["git", "-C", REPO, "checkout", "--", "."])
+            if ev_saved is not None:
+                open(ev, "w").write(ev_saved)
         lines = r.stdout.splitlines()
         viol = [l for l in lines if l.startswith("VIOLATION")]
         failed = [l.strip() for l in lines if l.strip().startswith("failed obligation:")]
